@@ -5,7 +5,7 @@ use crate::Args;
 pub fn run(a: &Args) -> i32 {
     let mut run = Run::new("C02", a.tier, a.seed, "fault_enumeration");
     crate::scenarios::run_for(&mut run, "C02");
-    let (ev, dn) = crate::props::crash::run_part(&mut run, a, "C02");
+    let (ev, dn, samples) = crate::props::crash::run_part(&mut run, a, "C02");
     run.assumptions = vec![
         "crash points = every file-system operation boundary of the traced executions (LD_PRELOAD recorder), plus byte cuts inside unsynced WAL / value-log writes".into(),
         "power-loss model as stated in the property: namespace operations kept in order; per file the content at its last completed fsync plus a chosen part of what was written since".into(),
@@ -16,6 +16,6 @@ pub fn run(a: &Args) -> i32 {
         dn,
         a.tier.pick(40, 200),
         "one evaluation = one synthesised crash image (trace prefix x loss model) opened by the real code; required = every transaction acknowledged (process model) or acknowledged as durable (Immediate, or before a returned flush_wal(true)) at that point; non-trivial = at least one transaction was required; distinct = distinct (option signature, loss model, required bucket, recovered-minus-required bucket)",
-        vec![],
+        samples,
     )
 }
